@@ -141,8 +141,10 @@ inline void run_single_fault(Engine& E, Rng& r, int cls, long case_index) {
     { std::lock_guard<std::mutex> l(c.m); for (auto& f : c.flags) vd.fail(f.first, f.second); }
     long dg = c.unconstructed_destroyed_garbage.load(), raw = sw.raw + sw2.raw;
     if (fk == F_ALLOC) {
-        if (dg) { R.stat(C + "_unconstructed_slots_destroyed", dg); R.stat(C + "_scenarios_destroying_unconstructed_slots"); if (E.strict_uninit) vd.fail("unconstructed-slot-destroyed", "after an allocation failure the destructor ran on " + std::to_string(dg) + " slots that were neither constructed nor zero-filled"); }
-        if (raw) { R.stat(C + "_unconstructed_slots_accessible", raw); if (E.strict_uninit) vd.fail("unconstructed-slot-accessible", "after an allocation failure at() hands out " + std::to_string(raw) + " slots below size() that are neither constructed nor zero-filled"); }
+        if (dg) { R.stat(C + "_unconstructed_slots_destroyed", dg); R.stat(C + "_scenarios_destroying_unconstructed_slots");
+                  if (E.emit_uninit && first_time(key_of(cls, "unconstructed-slot-destroyed"))) R.violation(key_of(cls, "unconstructed-slot-destroyed"), "after an allocation failure the destructor ran on " + std::to_string(dg) + " slots that were neither constructed nor zero-filled", pj.s); }
+        if (raw) { R.stat(C + "_unconstructed_slots_accessible", raw);
+                   if (E.emit_uninit && first_time(key_of(cls, "unconstructed-slot-accessible"))) R.violation(key_of(cls, "unconstructed-slot-accessible"), "after an allocation failure at() hands out " + std::to_string(raw) + " slots below size() that are neither constructed nor zero-filled", pj.s); }
     } else {
         if (dg) vd.fail("raw-slot-after-ctor-throw-destroyed", "the destructor ran on " + std::to_string(dg) + " slots that were neither constructed nor zero-filled (only a constructor was made to throw)");
         if (raw) vd.fail("raw-slot-after-ctor-throw-accessible", "at() hands out " + std::to_string(raw) + " slots below size() that are neither constructed nor zero-filled (only a constructor was made to throw)");
